@@ -240,6 +240,10 @@ def run(rep, tier):
             rep.bad("C14.R4", fn, loc_of(ev), "execute-caller", "stop_callback_base::execute() called from %s: callbacks may run twice" % fn.qname)
     rs = get(SS + "::request_stop")
     ex = [(b, i, ev) for f, b, i, ev in sites if f is rs]
+    if not ex:
+        rep.bad("C14.R4", rs, rs.loc, "callbacks-never-run", "request_stop dequeues the registered callbacks but never executes them: a stop_callback registered before "
+                "request_stop() never runs")
+        raise AnalysisBroken("request_stop: no execute() call (reported as a violation); the ordering rules around it cannot be evaluated")
     if len(ex) != 1:
         raise AnalysisBroken("request_stop: expected exactly one execute() call, found %d" % len(ex))
     eb, ei, eev = ex[0]
@@ -371,6 +375,7 @@ def run(rep, tier):
 
     # ---- R9: loops poll fresh words, results agree with what was done
     r9_rules(rep, F, get)
+    r9b_rules(rep, F, get)
 
     # ---- R10: the callback list stays a consistent doubly-linked list
     r10_rules(rep, F, get)
@@ -669,6 +674,84 @@ def r9_rules(rep, F, get):
                     "(null dereference when the callback is not executing / flag not set when it is)" if not nonnull else "(must be true)"))
 
 
+def r9b_rules(rep, F, get):
+    """C14.R9, continued: request_stop / remove_this_callback results, the signalling thread, the callback loop"""
+    from engine.kinds import guarded_returns, precedes_on_all_paths as ppa, loop_of
+    rs = get("pika::detail::stop_state::request_stop")
+    ff = FactFlow(rs)
+    n = 0
+    for leaf, fb, ev in guarded_returns(rs, ff):
+        v = strip(leaf)
+        if v.get("k") != "lit":
+            raise AnalysisBroken("stop_state::request_stop returns a non-literal")
+        won = [t for a, t in fb if re.match(r"^\w+(\.operator bool\(\))?$", a)]
+        n += 1
+        if won and v.get("v") == won[0]:
+            rep.ok("C14.R9", rs, "request_stop returns %s exactly when lock_and_request_stop %s" % (v.get("v"), "won" if won[0] else "found stop already requested"))
+        else:
+            rep.bad("C14.R9", rs, loc_of(ev), "request-stop-result", "request_stop returns %s on a path where its lock_and_request_stop guard reported %s: "
+                    "of any number of concurrent request_stop calls exactly one must return true" % (v.get("v"), won[0] if won else "nothing"))
+    if n < 2:
+        raise AnalysisBroken("request_stop: literal returns not found")
+    exs = [(b, i, e) for b, i, e in rs.all_events() if e.get("k") == "call" and callee_short(e) == "execute"]
+    if not exs:
+        return          # reported by R4
+    sig = lambda e: (e.get("k") == "call" and e.get("op") == "=" and P(e.get("recv")) == "this->signalling_thread_" and "get_self_id" in T(e["args"][0])) or \
+        (e.get("k") == "write" and P(e["lhs"]) == "this->signalling_thread_" and "get_self_id" in T(e.get("rhs")))
+    if all(ppa(rs, sig, (b, i)) for b, i, e in exs):
+        rep.ok("C14.R9", rs, "the signalling thread is recorded before the first callback runs")
+    else:
+        rep.bad("C14.R9", rs, loc_of(exs[0][2]), "signalling-thread-not-recorded", "request_stop runs callbacks without having stored signalling_thread_ = get_self_id(): a stop_callback "
+                "destroyed from inside its own callback is not recognised as running on this thread - its destructor waits for the callback it is called from (deadlock)")
+    lp = loop_of(rs, exs[0][0])
+    hdr = [blk for blk in rs.blocks.values() if lp and blk.id in lp and blk.cond is not None and any(t not in lp for _, t, _ in blk.succ)]
+    okl = False
+    for blk in hdr:
+        a, pos = cond_atoms(blk.cond)
+        if a in ("nullptr == this->callbacks_", "this->callbacks_ == nullptr"):
+            out = [l for l, t, _ in blk.succ if t not in lp]
+            okl = out == ["true" if pos else "false"] or okl
+    if lp and okl:
+        rep.ok("C14.R9", rs, "callbacks are run in a loop that ends only when callbacks_ is empty")
+    else:
+        rep.bad("C14.R9", rs, loc_of(exs[0][2]), "callback-loop", "request_stop does not run the callbacks in a loop that continues until callbacks_ == nullptr: callbacks registered "
+                "on the state are never run although stop was requested")
+    rst = [(b, i, e) for b, i, e in rs.all_events() if e.get("k") == "write" and P(e["lhs"]).endswith("->is_removed_") and T(strip(e["rhs"])) == "nullptr"]
+    fin = [(b, i, e) for b, i, e in rs.all_events() if e.get("k") == "call" and callee_short(e) == "store" and P(e.get("recv")).endswith("callback_finished_executing_")]
+    if rst and fin and all(ppa(rs, lambda e: e is rst[0][2], (b, i), reset_pred=lambda e: e.get("k") == "call" and callee_short(e) == "execute") for b, i, e in fin):
+        rep.ok("C14.R9", rs, "is_removed_ is detached from the stopper's stack flag before the callback is declared finished")
+    else:
+        rep.bad("C14.R9", rs, loc_of(fin[0][2]) if fin else rs.loc, "removed-flag-dangles", "request_stop declares a callback finished while its is_removed_ still points at the stopper's "
+                "local flag: a later destruction of that callback on the signalling thread writes through a dangling pointer")
+    # remove_this_callback: true <=> unlinked, unlink only while linked
+    rt = get("pika::detail::stop_callback_base::remove_this_callback")
+    ffr = FactFlow(rt)
+    ul = [(b, i) for b, i, e in rt.all_events() if e.get("k") == "write" and P(e["lhs"]) == "*this->prev_"]
+    may, _, _ = forward(rt, frozenset(), lambda st, ev, pos: st | {"u"} if pos in ul else st, None, lambda a, b: a | b)
+    must, _, _ = forward(rt, frozenset(), lambda st, ev, pos: st | {"u"} if pos in ul else st, None, lambda a, b: a & b)
+    for b, i in ul:
+        fb = ffr.before.get((b, i)) or frozenset()
+        if ("nullptr == this->prev_", False) in fb or ("this->prev_ == nullptr", False) in fb or ("this->prev_ != nullptr", True) in fb:
+            rep.ok("C14.R9", rt, "the node is unlinked only while it is linked (prev_ != nullptr)")
+        else:
+            rep.bad("C14.R9", rt, loc_of(rt.blocks[b].events[i]), "unlink-unlinked", "remove_this_callback writes through prev_ without having seen it non-null (a callback that "
+                    "already ran / is running has prev_ == nullptr)")
+    for b, i, e in rt.all_events():
+        if e.get("k") != "return" or (b, i) not in may:
+            continue
+        v = strip(e.get("e"))
+        if v.get("k") != "lit":
+            raise AnalysisBroken("remove_this_callback returns a non-literal")
+        if v.get("v") is True and "u" not in must[(b, i)]:
+            rep.bad("C14.R9", rt, loc_of(e), "removed-without-unlink", "remove_this_callback reports the callback as removed on a path that did not unlink it: the destructor returns "
+                    "while request_stop can still run (or is running) the callback")
+        elif v.get("v") is False and "u" in may[(b, i)]:
+            rep.bad("C14.R9", rt, loc_of(e), "unlinked-but-false", "remove_this_callback unlinks the callback and reports 'not removed': the destructor then waits for the callback "
+                    "to finish executing - it never runs, the destructor never returns")
+        else:
+            rep.ok("C14.R9", rt, "return %s agrees with the unlinking" % v.get("v"))
+
+
 def r10_rules(rep, F, get):
     CBB = "pika::detail::stop_callback_base"
 
@@ -678,7 +761,9 @@ def r10_rules(rep, F, get):
         ff = FactFlow(fn)
         fpos = [(b, i, e) for b, i, e in fn.all_events() if fwd(e)]
         if not fpos:
-            raise AnalysisBroken("%s: forward-link write (%s) not found" % (fn.qname, what))
+            rep.bad("C14.R10", fn, fn.loc, "link-missing:" + what, "%s no longer performs %s: the rest of the callback list is cut off (callbacks registered earlier never run) / "
+                    "the node stays reachable after it was removed" % (fn.qname, what))
+            return
         fset = set((b, i) for b, i, e in fpos)
         bset = set((b, i) for b, i, e in fn.all_events() if back(e))
 
